@@ -14,8 +14,12 @@ Configuration axes (drawn per case)
             explicit mass (as Tests/Test_Old/Test_SetW_OOP_OrbitTides/test_a does); layered worlds are built with
             build_from_world from 'earth_simple' (TWO tidally active layers, see BASES) / 'io_simple' (one).  Host
             and star is a private build_world('55cnc') (tides off => single-body orbital derivatives).
-  cooling   layered only: off | convection | conduction for the tidal layers (off twice as likely: the thermal
-            feedback of the other two runs into KF-C13-complex-surface-temperature, the search continues behind it)
+  cooling   layered only: off | convection | conduction for the tidal layers, 1:2:2 (the thermal feedback of the
+            latter two used to run into KF-C13-complex-surface-temperature, repaired in /repo by de31ebe)
+  host_tides  global-approx models, 1 in 3: star + a SEPARATE dissipating host (Jupiter-like CPL world with a fixed
+            0.41 d rotation, as Test_SetW_OOP_OrbitTides/test_c; a star that is its own tidal host cannot have tides
+            on) => dual-body orbital derivatives; the host's heating and dUdM/dUdw/dUdO are observed too.  Only the
+            world and its orbit have a history.  The single-body functional API is then not asked for de/dt, da/dt, dn/dt.
   blank     False: the world starts in the orbit its config ships with (P/a, e); True: those keys are stripped, the
             world starts with no orbit at all and quantities appear as state arrives.
   sync, obl (obliquity_tides_on), trunc in {2,6}, lmax 2 (3 for layered worlds in the thorough tier),
@@ -39,9 +43,11 @@ A deferred call is always followed at once by the explicit update its docstring 
 was changed - an API that is told not to update is not "stale by defect".
 
 Oracles, evaluated after EVERY step (so the first stale quantity is attributed to the field just written)
-  model     what the getters report for the primary state equals the model: e, obliquity, time, spin frequency (== n
-            when locked), fixed_q/dt, layer temperature bit-for-bit; (a, n, P) against an independent Kepler
-            computation to KEPLER_RTOL = 1e-13 (C17's clause: 8 ulp + the (1/3) literal), spin period 1e-13.
+  model     what the getters report for the primary state equals the model, everything to KEPLER_RTOL = 1e-13 relative
+            and nothing bit-exact (an implementation may store a canonical unit and convert back; read-back noise is
+            not history dependence): e, obliquity, time, spin (== n when locked), fixed_q/dt, layer temperature, the
+            orbital value in the unit written, world.X vs the orbit getter, and (a, n, P) against an independent
+            Kepler computation (C17's clause: 8 ulp + the (1/3) literal).
   fresh     every listed derived quantity of the history world equals that of a FRESHLY BUILT world + orbit + star put
             into the model state directly: fixed_q/dt through the build config, layer temperatures before the orbit is
             attached, then ONE orbit.set_state and ONE world.set_state, each given the primary values the history
@@ -66,20 +72,27 @@ Oracles, evaluated after EVERY step (so the first stale quantity is attributed t
             of its terms) and de/dt is a difference of nearly equal numbers for small e; last-bit noise in such a sum
             is judged against the size of the cancelling terms, S_X = |susceptibility|/M_host * sum_modes |term_X| *
             |Im k_mode| taken from the world's own mode table (`_cancel_scales`), i.e. |x-y| <= 1e-12*max(|x|,|y|,S).
+            `_cancel_scales` reads non-public tables; if their layout changes (any exception) the scale comes from public
+            attributes only, S = 10*tidal_heating_global/(min non-zero tidal frequency*M_host) >= sum |terms| (`_public_scales`),
+            with F_RTOL_FALLBACK = 1e-9 (label cancel-scale:public-fallback) - never the bare relative test.
             Without it one ctl_q history in ~1 000 failed at 2e-6 of a 1e-37 value.  Not asserted for layered worlds
             (the functional API is documented for homogeneous one-layer bodies).
   exceptions  a setter of the history that raises although a fresh world put into the same state does not (or the
             reverse) is a failure {clause: exception, quantity: <type>, where: <call site>}; if both raise the same
-            type the history ends without verdict (label both-raise).  The two pure oracle calls are retried once
+            type the history ends without verdict: label both-raise, counted in the evidence
+            (coverage.ended_without_verdict_*), and a shard in which more than 20 % of the histories end that way is a
+            HARNESS ERROR (vacuity guard in shard_teardown), not a pass.  The two pure oracle calls are retried once
             (label `retried:*`): a numba on-disk-cache race between cold shards does not repeat, a real failure does.
 Not asserted, only counted (label `unlisted-differs:*`): surface_temperature / insolation_heating of layered worlds -
-they are not among the quantities the property lists and ARE path dependent (see the report / known finding).
+they are not among the quantities the property lists and ARE path dependent (one-pass surface temperature <-> cooling
+feedback; insolation is not recomputed when the orbit changes), also after de31ebe.
 
 Defects
   repaired in /repo, each re-found on the reverted tree (fixes/revert-2854a61.diff: e-only / obliquity-only update left
   the tidal terms stale; fixes/revert-7baff3f.diff: fixed_q / fixed_dt update left the CPL/CTL Love dictionary stale);
-  KF-C13-complex-surface-temperature (known_findings.json, replays/C13-complex-surface-temperature.json,
-  proposed repair out/proposed-fix-C13-1.diff): with a convection/conduction cooling model the one-pass surface-
+  KF-C13-complex-surface-temperature (found by this check, repaired in /repo by de31ebe = out/proposed-fix-C13-1.diff;
+  status fixed in known_findings.json; replays/C13-complex-surface-temperature.json and a fixed case are its witnesses and
+  fixes/revert-de31ebe.diff must be CAUGHT): with a convection/conduction cooling model the one-pass surface-
   temperature <-> cooling feedback leaves (insolation + internal heating) negative, calc_equilibrium_temperature
   returns a complex number and the next setter raises numba TypingError - in the history but not in a fresh world.
 
@@ -97,7 +110,9 @@ Sensitivity (tools/mut.py C13 ..., quick tier, final module; all CAUGHT unless s
   rheology.py tidal_frequencies_changed: keep old complex compliances -> exception/collapse_modes + fresh/global_love_by_orderl
   orbit/physics.py orbit_changed: drop self.dissipation_changed(w)    -> MISSED, equivalent mutant: collapse_modes already
                                                                          reaches orbit.dissipation_changed through world.dissipation_changed
-  --patch out/proposed-fix-C13-1.diff                                 -> no violation, known finding no longer reproduced
+  --patch fixes/revert-de31ebe.diff                                   -> exception/TypingError, where cooling_models(njit typing)
+  seeded/C13-1, seeded/C13-2 (tools/seed_catch.sh)                    -> fresh/global_love_by_orderl (fixed_q, ctl_q); fresh/de/dt,da/dt
+  orbit/base.py set_state: drop the host update of the set_by_world branch -> see MUT-HOST below (host_tides family)
 """
 import copy
 import math
@@ -124,8 +139,10 @@ TIMEOUT = {'quick': 1500, 'thorough': 4 * 3600}
 SHRINK_BUDGET = (200, 90.0)
 MAX_STEPS = {'quick': 12, 'thorough': 40}
 NARR = 3
+HOST_SPIN_PERIOD = 0.41   # days; the host's own state is fixed, only the world and its orbit have a history
 RTOL = 1e-12
 F_RTOL = {'cpl': 1e-12, 'ctl': 1e-12, 'ctl_q': 1e-12}
+F_RTOL_FALLBACK = 1e-9   # functional clause when the cancelling-term scale has to come from public attributes only
 KEPLER_RTOL = 1e-13
 
 RULE = ('Hypothesis draws a configuration (model cpl|ctl|ctl_q|layered x base earth|io x rheology maxwell|andrade x cooling off|convection|conduction x blank-start x '
@@ -162,12 +179,17 @@ DOMAIN = {'orbital_period': (1.0, 200.0), 'orbital_frequency': (3.6e-7, 7.3e-5),
           'spin_period': (0.31, 200.0), 'spin_frequency': (3.6e-7, 2.4e-4)}
 STALE_KINDS = ['e', 'obliquity', 'fixed_q', 'fixed_dt', 'temperature']
 # upstream -> downstream
+HOST_QUANTITIES = ['host_tidal_heating_global', 'host_dUdM', 'host_dUdw', 'host_dUdO', 'dual_body']
 QUANTITY_ORDER = ['unique_tidal_frequencies', 'global_love_by_orderl', 'global_negative_imk_by_orderl',
-                  'tidal_heating_by_layer', 'tidal_heating_global', 'dUdM', 'dUdw', 'dUdO',
+                  'tidal_heating_by_layer', 'tidal_heating_global', 'dUdM', 'dUdw', 'dUdO'] + HOST_QUANTITIES + [
                   'eccentricity_time_derivative', 'semi_major_axis_time_derivative',
                   'orbital_motion_time_derivative', 'spin_time_derivative']
+# with a dissipating host the orbit derivatives are dual-body: the single-body functional API does not predict them
+SINGLE_BODY_ONLY = ['eccentricity_time_derivative', 'semi_major_axis_time_derivative', 'orbital_motion_time_derivative']
 
 _S = {}
+_COUNT = {'n': 0, 'both': 0}
+VACUITY_MAX = 0.20
 _WORST = {}   # calibration aid: worst accepted deviation per (clause|model, quantity)
 
 
@@ -318,7 +340,7 @@ def _case(draw, tier):
         'model': model,
         'base': draw(st.sampled_from(['earth', 'io'])),
         'rheology': draw(st.sampled_from(['maxwell', 'andrade'])) if model == 'layered' else 'maxwell',
-        'cooling': draw(st.sampled_from(['off', 'off', 'convection', 'conduction'])) if model == 'layered' else 'off',
+        'cooling': draw(st.sampled_from(['off', 'convection', 'convection', 'conduction', 'conduction'])) if model == 'layered' else 'off',
         'blank': draw(st.sampled_from([False, False, True])),
         'sync': draw(st.booleans()),
         'obl': draw(st.booleans()),
@@ -326,6 +348,8 @@ def _case(draw, tier):
         'lmax': draw(st.sampled_from([2, 2, 3])) if (tier == 'thorough' and model == 'layered') else 2,
         'array': draw(st.sampled_from([False, False, True])),
     }
+    # second configuration family: the HOST dissipates too (dual-body orbital derivatives); global-approx worlds only
+    cfg['host_tides'] = bool(model != 'layered' and draw(st.sampled_from([False, False, True])))
     n = draw(st.integers(2, MAX_STEPS[tier]))
     ops = []
     if model == 'layered' and draw(st.sampled_from([True, True, True, True, False])):
@@ -364,7 +388,7 @@ def fixed_cases(tier):
     out = []
     for model in ('cpl', 'ctl'):
         cfg = {'model': model, 'base': 'earth', 'rheology': 'maxwell', 'cooling': 'off', 'blank': False, 'sync': True, 'obl': False,
-               'trunc': 2, 'lmax': 2, 'array': False}
+               'trunc': 2, 'lmax': 2, 'array': False, 'host_tides': model == 'ctl'}
         out.append({'config': cfg, 'check': [True, True, True],
                     'ops': [['orbit.set_state', {'orbital_period': 50.0, 'eccentricity': 0.1}, False],
                             ['orbit.set_state', {'eccentricity': 0.3}, False],
@@ -383,7 +407,7 @@ def fixed_cases(tier):
                         ['world.set_state', {'orbital_period': 50.0, 'eccentricity': 0.2, 'obliquity': 0.17, 'spin_period': 10.0}, False],
                         ['layer.temperature', {'layer': 'tidal0', 'via': 'property', 'temperature': 1650.0}, False],
                         ['world.set', {'obliquity': 0.4}, True]]})
-    # witness of KF-C13-complex-surface-temperature (known finding): after a hot upper mantle (huge convective heat flow =>
+    # witness of KF-C13-complex-surface-temperature (fixed by de31ebe; holds now, fails on the reverted tree): after a hot upper mantle (huge convective heat flow =>
     # very hot surface) the mantle is set colder than that left-over surface temperature => negative cooling => complex
     # surface temperature => the next setter raises numba TypingError; a fresh world with a 1000 K mantle is fine.
     cfg = {'model': 'layered', 'base': 'earth', 'rheology': 'andrade', 'cooling': 'convection', 'blank': False, 'sync': True,
@@ -399,7 +423,8 @@ def fixed_cases(tier):
 def required_labels(tier):
     return (['model:' + m for m in MODELS] + ['stale:%s_only_after_freq' % k for k in STALE_KINDS]
             + ['sync:True', 'sync:False', 'obl:True', 'obl:False', 'trunc:2', 'trunc:6', 'array', 'scalar',
-               'blank:True', 'blank:False', 'rheology:maxwell', 'rheology:andrade', 'cooling:off', 'cooling:convection', 'cooling:conduction', 'deferred', 'functional-checked'])
+               'blank:True', 'blank:False', 'rheology:maxwell', 'rheology:andrade', 'cooling:off', 'cooling:convection', 'cooling:conduction', 'deferred', 'functional-checked',
+               'host_tides:True', 'host_tides:False', 'dual-body-checked'])
 
 
 def in_domain(case):
@@ -414,6 +439,8 @@ def in_domain(case):
         for k in ('blank', 'sync', 'obl', 'array'):
             if not isinstance(cfg[k], bool):
                 return False
+        if not isinstance(cfg.get('host_tides', False), bool) or (cfg.get('host_tides') and cfg['model'] == 'layered'):
+            return False
         ops = case['ops']
         if not (1 <= len(ops) <= 40) or len(case['check']) != len(ops):
             return False
@@ -477,6 +504,10 @@ def shrink_hints(case):
                 if isinstance(v, list):
                     op[1][f] = v[0]
         yield c
+    if case['config'].get('host_tides'):
+        c = copy.deepcopy(case)
+        c['config']['host_tides'] = False
+        yield c
     if any(not x for x in case['check']):
         c = copy.deepcopy(case)
         c['check'] = [True] * len(ops)
@@ -492,7 +523,8 @@ def _val(v):
 
 
 def _build(cfg, fixed_q=None, fixed_dt=None, temperatures=None):
-    """A fresh star + world + orbit for the configuration (world in the state its config ships with)."""
+    """A fresh star + world + orbit for the configuration (world in the state its config ships with).
+    Returns (world, orbit, tidal host); the host is the star itself unless cfg[host_tides]."""
     from TidalPy.structures import build_from_world, build_world
     from TidalPy.structures.orbit import PhysicsOrbit
     shard_setup()
@@ -519,6 +551,18 @@ def _build(cfg, fixed_q=None, fixed_dt=None, temperatures=None):
     for lname, T in (temperatures or {}).items():
         getattr(world, lname).set_temperature(_val(T))
     star = build_world('55cnc')
+    if cfg.get('host_tides'):
+        # second family (as Test_SetW_OOP_OrbitTides/test_c): star + a separate dissipating HOST (a star that is its own tidal
+        # host cannot have tides on: get_tidal_host raises).  Jupiter-like CPL host, Q = 1e4, k2 = 0.4, fixed 0.41 d rotation.
+        # The orbit derivatives of the world become dual-body.  Only the world and its orbit have a history.
+        hc = {'name': 'vhost', 'type': 'simple_tidal', 'radius': 6.9911e7, 'mass': 1.898e27, 'tides_on': True,
+              'force_spin_sync': False,
+              'tides': {'model': 'global_approx', 'use_ctl': False, 'fixed_q': 1.0e4, 'static_k2': 0.4,
+                        'eccentricity_truncation_lvl': cfg['trunc'], 'max_tidal_order_l': 2, 'obliquity_tides_on': False}}
+        host = build_world('vhost', hc)
+        orbit = PhysicsOrbit(star, tidal_host=host, tidal_bodies=world)
+        host.set_state(spin_period=HOST_SPIN_PERIOD)
+        return world, orbit, host
     orbit = PhysicsOrbit(star, tidal_host=star, tidal_bodies=world)
     return world, orbit, star
 
@@ -662,6 +706,15 @@ def _observe(world, orbit, cfg):
     for name in ('eccentricity', 'semi_major_axis', 'orbital_motion'):
         v = getattr(orbit, 'get_%s_time_derivative' % name)(world)
         out[name + '_time_derivative'] = None if v is None else np.asarray(v)
+    if cfg.get('host_tides'):
+        host = orbit.tidal_host
+        for name in ('tidal_heating_global', 'dUdM', 'dUdw', 'dUdO'):
+            v = getattr(host, name)
+            out['host_' + name] = None if v is None else np.asarray(v)
+        out['dual_body'] = None if orbit._last_calc_used_dual_body is None else np.asarray(float(orbit._last_calc_used_dual_body))
+    else:
+        for name in HOST_QUANTITIES:
+            out[name] = None
     if world.dUdO is not None:
         v = world.calc_spin_derivative()
         out['spin_time_derivative'] = None if v is None else np.asarray(v)
@@ -760,8 +813,16 @@ def _exact(a, b):
     return a.shape == b.shape and bool(np.all((a == b) | (np.isnan(a) & np.isnan(b))))
 
 
+def _close(a, b):
+    """Read-back equality of a primary value: to KEPLER_RTOL, not bit-exact - an implementation is free to store a
+    canonical unit (n for P, radians for degrees, ...) and convert back; read-back noise is not history dependence."""
+    if a is None or b is None:
+        return a is None and b is None
+    return _reldiff(a, b) <= KEPLER_RTOL
+
+
 def _check_model(c, sig, world, orbit, star, cfg, model):
-    """Primary state reported by the objects == model."""
+    """Primary state reported by the objects == model (all comparisons to KEPLER_RTOL = 1e-13 relative)."""
     ok = True
     if model['orb'] is not None:
         a, n, P = _expected_orbit(model, star.mass, world.mass)
@@ -773,31 +834,29 @@ def _check_model(c, sig, world, orbit, star, cfg, model):
             ok &= c.check(d <= KEPLER_RTOL, dict(sig, clause='model', quantity=name),
                           'orbit getter %s=%s, Kepler model from %s gives %s (rel %.3e)' % (name, _short(g), model['orb'][0], _short(exp), d))
         for name in ORB_KEYS:
-            ok &= c.check(_exact(getattr(world, name), got[name]), dict(sig, clause='model', quantity='world.' + name),
+            ok &= c.check(_close(getattr(world, name), got[name]), dict(sig, clause='model', quantity='world.' + name),
                           'world.%s=%s but orbit getter %s' % (name, _short(getattr(world, name)), _short(got[name])))
         if model['orb'][0] in got:
-            ok &= c.check(_exact(got[model['orb'][0]], _val(model['orb'][1])), dict(sig, clause='model', quantity='readback:' + model['orb'][0]),
+            ok &= c.check(_close(got[model['orb'][0]], _val(model['orb'][1])), dict(sig, clause='model', quantity='readback:' + model['orb'][0]),
                           'wrote %s, read back %s' % (_short(_val(model['orb'][1])), _short(got[model['orb'][0]])))
     if model['e'] is not None:
-        ok &= c.check(_exact(orbit.get_eccentricity(world), _val(model['e'])) and _exact(world.eccentricity, _val(model['e'])),
+        ok &= c.check(_close(orbit.get_eccentricity(world), _val(model['e'])) and _close(world.eccentricity, _val(model['e'])),
                       dict(sig, clause='model', quantity='eccentricity'),
                       'model e=%s, orbit %s, world %s' % (_short(_val(model['e'])), _short(orbit.get_eccentricity(world)), _short(world.eccentricity)))
     if model['obliquity'] is not None:
-        ok &= c.check(_exact(world.obliquity, _val(model['obliquity'])), dict(sig, clause='model', quantity='obliquity'),
+        ok &= c.check(_close(world.obliquity, _val(model['obliquity'])), dict(sig, clause='model', quantity='obliquity'),
                       'model obliquity=%s, world %s' % (_short(_val(model['obliquity'])), _short(world.obliquity)))
     if model['time'] is not None:
-        ok &= c.check(_exact(world.time, _val(model['time'])), dict(sig, clause='model', quantity='time'),
+        ok &= c.check(_close(world.time, _val(model['time'])), dict(sig, clause='model', quantity='time'),
                       'model time=%s, world %s' % (_short(_val(model['time'])), _short(world.time)))
     if model['spin'] is not None:
         if model['spin'][0] == 'locked':
-            ok &= c.check(_exact(world.spin_frequency, orbit.get_orbital_frequency(world)), dict(sig, clause='model', quantity='spin_locked'),
+            ok &= c.check(_close(world.spin_frequency, orbit.get_orbital_frequency(world)), dict(sig, clause='model', quantity='spin_locked'),
                           'spin-locked world: spin_frequency=%s, n=%s' % (_short(world.spin_frequency), _short(orbit.get_orbital_frequency(world))))
         else:
             f, v = model['spin']
-            # a spin period is stored as a frequency and converted back (2 roundings): 1e-13; a frequency is stored as is
             g = getattr(world, f)
-            good = _exact(g, _val(v)) if f == 'spin_frequency' else (g is not None and _reldiff(g, _val(v)) <= KEPLER_RTOL)
-            ok &= c.check(good, dict(sig, clause='model', quantity=f),
+            ok &= c.check(_close(g, _val(v)), dict(sig, clause='model', quantity=f),
                           'wrote %s=%s, read back %s' % (f, _short(_val(v)), _short(g)))
         sf, sp = world.spin_frequency, world.spin_period
         d = float('inf') if (sf is None or sp is None) else _reldiff(np.asarray(sp, dtype=float) * 86400.0 * np.asarray(sf, dtype=float) / (2.0 * math.pi), 1.0)
@@ -805,10 +864,10 @@ def _check_model(c, sig, world, orbit, star, cfg, model):
                       'spin_period=%s, spin_frequency=%s (P*f/2pi-1=%.3e)' % (_short(sp), _short(sf), d))
     for f in ('fixed_q', 'fixed_dt'):
         if model[f] is not None:
-            ok &= c.check(_exact(getattr(world, f), model[f]), dict(sig, clause='model', quantity=f),
+            ok &= c.check(_close(getattr(world, f), model[f]), dict(sig, clause='model', quantity=f),
                           'wrote %s=%r, read back %r' % (f, model[f], getattr(world, f)))
     for lname, T in model['T'].items():
-        ok &= c.check(_exact(getattr(world, lname).temperature, _val(T)), dict(sig, clause='model', quantity='temperature'),
+        ok &= c.check(_close(getattr(world, lname).temperature, _val(T)), dict(sig, clause='model', quantity='temperature'),
                       'layer %s: wrote T=%s, read back %s' % (lname, _short(_val(T)), _short(getattr(world, lname).temperature)))
     return bool(ok)
 
@@ -835,7 +894,18 @@ def _functional(world, star, cfg):
     # equal numbers for small e.  The two APIs may differ in the last bit of a (semi-major axis written directly vs derived
     # from n) and of -Im k (ctl_q regrouping); such noise is judged against the size of the CANCELLING TERMS, computed here
     # from the world's own mode table: S_X = |susceptibility|/M_host * sum_modes |term_X| * |Im k_mode|.
-    sc = _cancel_scales(world, star)
+    frtol = F_RTOL[cfg['model']]
+    try:
+        sc = _cancel_scales(world, star)
+        fallback = False
+    except Exception:       # the private mode tables changed layout: not a property violation, use public attributes only
+        sc = None
+        fallback = True
+    if sc is None and not fallback and world.tidal_heating_global is not None:
+        fallback = True
+    if fallback:
+        sc = _public_scales(world, star)
+        frtol = F_RTOL_FALLBACK
     scales = {}
     if sc is not None:
         ee = np.asarray(e, dtype=float)
@@ -849,7 +919,7 @@ def _functional(world, star, cfg):
                       'eccentricity_time_derivative': np.where(ee > 0.0, rt / (nn * a * a * ee) * mfac * (rt * sc['dUdM'] + sc['dUdw']), 0.0),
                       'spin_time_derivative': star.mass * sc['dUdO'] / world.moi}
     return {
-        '_scale': scales,
+        '_scale': scales, '_rtol': frtol, '_fallback': fallback,
         'global_love_by_orderl': {str(int(k)): np.asarray(v) for k, v in r['love_number_by_orderl'].items()},
         'global_negative_imk_by_orderl': {str(int(k)): np.asarray(v) for k, v in r['negative_imk_by_orderl'].items()},
         'tidal_heating_global': np.asarray(r['tidal_heating']),
@@ -892,6 +962,27 @@ def _cancel_scales(world, star):
     return {'dUdM': tot[0] * f, 'dUdw': tot[1] * f, 'dUdO': tot[2] * f}
 
 
+def _public_scales(world, star):
+    """Fallback for `_cancel_scales` from PUBLIC attributes only: every mode contributes U K w to the heating and
+    U K weight / M_host to a potential derivative (|weight| <= 10 up to truncation 6), hence
+    sum |terms_X| <= 10 * tidal_heating_global / (min non-zero tidal frequency * M_host).  Coarser than the mode table, so it
+    is used with F_RTOL_FALLBACK = 1e-9 instead of 1e-12 (never the bare relative test, which false-alarms on cancelling sums)."""
+    heat = world.tidal_heating_global
+    freqs = world.unique_tidal_frequencies
+    if heat is None or freqs is None:
+        return None
+    wmin = None
+    with np.errstate(all='ignore'):
+        for _k, w in freqs.items():
+            w = np.abs(np.asarray(w, dtype=float))
+            w = np.where(w > 0.0, w, np.inf)
+            wmin = w if wmin is None else np.minimum(wmin, w)
+        if wmin is None:
+            return None
+        sc = np.where(np.isfinite(wmin), 10.0 * np.abs(np.asarray(heat, dtype=float)) / (wmin * star.mass), 0.0)
+    return {'dUdM': sc, 'dUdw': sc, 'dUdO': sc}
+
+
 def _changed_name(changed):
     names = sorted({'orb': 'orbit', 'e': 'e', 'spin': 'spin'}.get(x, x.split(':')[0]) for x in changed)
     return '+'.join(names)
@@ -905,8 +996,26 @@ def _describe(cfg, ops, i):
 # evaluate
 
 
+def shard_teardown():
+    """Vacuity guard: histories that end without verdict (`both-raise`) must stay a small minority."""
+    from vlib.result import HarnessError
+    n, both = _COUNT['n'], _COUNT['both']
+    if n >= 20 and both > VACUITY_MAX * n:
+        raise HarnessError('C13 vacuity guard: %d of %d histories of this shard ended without verdict (history and fresh world '
+                           'raised the same exception type) - more than %.0f %%' % (both, n, 100 * VACUITY_MAX))
+
+
+def extra_coverage(tier, merged):
+    n = max(1, merged.get('evaluations', 0))
+    both = merged.get('labels', {}).get('both-raise', 0)
+    return {'ended_without_verdict_both_raise': both, 'ended_without_verdict_fraction': round(both / n, 4),
+            'vacuity_guard_max_fraction_per_shard': VACUITY_MAX,
+            'functional_public_scale_fallback': merged.get('labels', {}).get('cancel-scale:public-fallback', 0)}
+
+
 def evaluate(case):
     shard_setup()
+    _COUNT['n'] += 1
     cfg = case['config']
     ops = case['ops']
     check = case.get('check') or [True] * len(ops)
@@ -915,6 +1024,8 @@ def evaluate(case):
             'trunc:%d' % cfg['trunc'], 'lmax:%d' % cfg['lmax'], 'array' if cfg['array'] else 'scalar', 'blank:%s' % cfg['blank'])
     if cfg['model'] == 'layered':
         c.label('rheology:' + cfg['rheology'], 'cooling:' + cfg.get('cooling', 'off'))
+    else:
+        c.label('host_tides:%s' % bool(cfg.get('host_tides')))
     with repo_call('build'):
         world, orbit, star = _build(cfg)
     model = _new_model()
@@ -954,7 +1065,10 @@ def evaluate(case):
             except RepoRaised as err2:
                 fresh_raises = type(err2.exc).__name__
             if fresh_raises == type(err.exc).__name__:
-                c.label('both-raise:' + fresh_raises)
+                # no verdict: the state is unreachable for both.  Counted (label + evidence) and bounded by the vacuity
+                # guard in shard_teardown (> 20 % of a shard's histories ending here is a harness error, not a pass).
+                c.label('both-raise', 'both-raise:' + fresh_raises)
+                _COUNT['both'] += 1
                 break
             c.fail(dict(sig, clause='exception', quantity=type(err.exc).__name__, via=op[0], where=_where(err.exc)),
                    'history raised %s: %s (fresh world in the same state: %s). %s'
@@ -1001,6 +1115,8 @@ def evaluate(case):
         pending = set()
         if obs['tidal_heating_global'] is not None:
             c.label('live-checked')
+        if obs.get('dual_body') is not None and float(obs['dual_body']) == 1.0 and obs['eccentricity_time_derivative'] is not None:
+            c.label('dual-body-checked')
         # not asserted (outside the quantities the property lists), only counted: thermal side of a layered world
         if cfg['model'] == 'layered':
             for name in ('surface_temperature', 'insolation_heating'):
@@ -1017,13 +1133,15 @@ def evaluate(case):
                     fun = _functional(world, star, cfg)
             if fun is not None:
                 c.label('functional-checked')
+                if fun['_fallback']:
+                    c.label('cancel-scale:public-fallback')
                 for q in QUANTITY_ORDER:
-                    if q not in fun:
+                    if q not in fun or (cfg.get('host_tides') and q in SINGLE_BODY_ONLY):
                         continue
                     d, note = _cmp(obs[q], fun[q], fun['_scale'].get(q))
-                    if d > _WORST.get((cfg['model'], q), 0.0) and d <= F_RTOL[cfg['model']]:
+                    if d > _WORST.get((cfg['model'], q), 0.0) and d <= fun['_rtol']:
                         _WORST[(cfg['model'], q)] = d
-                    if not d <= F_RTOL[cfg['model']]:
+                    if not d <= fun['_rtol']:
                         c.fail(dict(sig, clause='functional', quantity=q),
                                '%s after step %d (%s): history world | quick_tidal_dissipation = %s. %s'
                                % (q, i, op[0], note, _describe(cfg, ops, i)))
